@@ -13,7 +13,7 @@ ValSet == {Null, NumV(-10000), NumV(0), NumV(20000), NumV(25000)}
 Ops == {"+", "-", "*"}
 Cops == {"<", "<=", ">", ">=", "=", "!="}
 Init == x \in ValSet /\ y \in ValSet /\ op1 \in Ops /\ op2 \in Ops /\ cop \in Cops
-Next == x' \in ValSet /\ y' \in ValSet /\ op1' \in Ops /\ op2' \in Ops /\ cop' \in Cops
+Next == UNCHANGED vars   \* pure enumeration: every combination is an initial state
 Spec == Init /\ [][Next]_vars
 
 Row == [x |-> x, y |-> y]
